@@ -184,7 +184,7 @@ def check_equivariance(desc):
     else:
         # a relabelling changes only which Duffy rule orientation is used on the singular pairs, so the difference must decay with the
         # singular order; measured decay on coarse, sharply curved meshes (3x4 torus, Maxwell M) is only ~30x from order 4 to 10
-        if errs[-1] > 1e-7 and errs[-1] > 0.1 * errs[0]:
+        if errs[-1] > 1e-7 and errs[-1] > 0.3 * errs[0]:
             _fail(sig, f"relabelled grid: ||A' - Q^T A Q|| = {['%.1e' % e for e in errs]} on singular orders {[l[1] for l in ladder]}: not a quadrature-level difference")
         if errs[0] > 0.25:
             _fail(sig + "/coarse", f"difference {errs[0]:.1e} at singular order {ladder[0][1]} is larger than any singular-quadrature error")
@@ -235,7 +235,7 @@ def check_orientation(desc):
         want = Qt.T @ A0 @ Qd
         errs.append(float(np.max(np.abs(A1 - want))) / max(float(np.max(np.abs(A1))), float(np.max(np.abs(want))), 1e-4 * D ** _EXP[op]))
     sig = f"orientation/{fam}_{op}/{tk}x{dk}"
-    if errs[-1] > 1e-7 and errs[-1] > 0.1 * errs[0]:
+    if errs[-1] > 1e-7 and errs[-1] > 0.3 * errs[0]:
         _fail(sig, f"swapped_normals={S} vs physically reversed elements: ||A_rev - Q^T A_flag Q|| = {['%.1e' % e for e in errs]} on singular orders "
               f"{[l[1] for l in ladder]}")
     if errs[0] > 0.25:
